@@ -52,7 +52,7 @@ type mapEnv struct {
 
 func (e *mapEnv) violation(prop, what string) {
 	e.st.Violations = append(e.st.Violations, hx.Violation{
-		Property: prop, Stream: e.st.Stream, Seed: e.cfg.Seed, Program: e.prog, Step: e.step, What: what, Trace: e.w.Path,
+		Property: prop, Stream: e.st.Stream, Seed: e.cfg.Seed, Program: e.prog, Step: e.step, What: what, Trace: e.w.Path, Line: e.w.Lines,
 	})
 }
 
